@@ -397,7 +397,9 @@ class FrameRateAttribute:
 
   @staticmethod
   def set(ttml_element, frame_rate: Fraction):
-    rounded_fps = round(frame_rate)
+    # ttp:frameRate is a positive integer: a frame rate below 1/2 is expressed by the multiplier alone
+
+    rounded_fps = max(1, round(frame_rate))
 
     ttml_element.set(
       FrameRateAttribute.frame_rate_qn, 
